@@ -31,6 +31,9 @@
          C10_query_early_reply                   ... handled BEFORE the caller's receive: exactly it
          C10_colour_query_no_loss                no reply dropped, FIFO, a blocked caller = a reply not
                                                  yet arrived (guard: honest terminal, <= cap callers)
+         C10_timed_query_no_loss                 the same with a deadline on the receive (the size request of
+                                                 reportWinsize): no report dropped — the early one included —
+                                                 while the deadline does not fire; C10_size_late_report_refuted
          C10_query_unbuffered_no_stale           rendezvous kinds keep nothing beyond the offer
          C10_query_no_lost_key, C10_query_consumed_only_while_outstanding, C10_query_keys_conserved
          C10_query_handler_progress, C10_query_handler_rank   bounded offers only
@@ -294,6 +297,33 @@ Theorem C10_colour_query_no_loss : forall (c : qcfg) (n : nat) (k : kind) (tr : 
 Proof. intros c n k tr s Hs Hr. exact (colour_no_loss c n k Hs Hr tr s). Qed.
 Print Assumptions C10_colour_query_no_loss.
 
+(* The same hand-off when the receive HAS a timer — the size request of reportWinsize (VAXIS_FORCE_XTWINOPS:
+   Resize() + Render(), or New; capacity 1, non-blocking send, 100 ms deadline) — on every run on which the
+   terminal is honest about kind k, at most cap(k) requesters are between their write and the end of their
+   receive, and the deadline of a k-receive does not fire (the report comes in time; guard no_timeout_at):
+   no report is ever dropped — in particular not the one that is handled BEFORE the requester reaches its
+   receive —, the requesters receive the reports in the order of arrival, none skipped, and a requester
+   parked in its receive means a report not yet arrived.  So a resize request the terminal answers in time
+   is applied, with the answer of that request.  Any configuration with a non-blocking send; any k. *)
+Theorem C10_timed_query_no_loss : forall (c : qcfg) (n : nat) (k : kind) (tr : list qlabel) (s : qstate),
+  k_snd (q_k c k) = SNonblock ->
+  qrun c tr (qinit n) = Some s -> qrun_all c (timed_hyp c k) tr (qinit n) = true ->
+  dropped s k = [] /\ handled s k = rets s k ++ buf s k /\
+  (forall g, qget s g = QParked k -> buf s k = [] /\ (List.length (handled s k) < nwr s k)%nat).
+Proof. intros c n k tr s Hs. exact (timed_no_loss c n k Hs tr s). Qed.
+Print Assumptions C10_timed_query_no_loss.
+
+(* The guard on the deadline is needed, on the unchanged code: a size request that times out and whose
+   report comes late leaves its token in the channel; the next request returns on that token before its own
+   report has arrived (honest terminal, one requester at a time).  Proposed finding stale-size-token. *)
+Theorem C10_size_late_report_refuted :
+  qrun_all gen_qcfg (colour_hyp gen_qcfg KSize) size_late_trace (qinit 1) = true /\
+  qrun_all gen_qcfg (timed_hyp gen_qcfg KSize) size_late_trace (qinit 1) = false /\
+  exists s, qrun gen_qcfg size_late_trace (qinit 1) = Some s /\
+            nwr s KSize = 2%nat /\ handled s KSize = [7] /\ qget s 0 = QPost KSize [] (Some 7).
+Proof. exact size_late_report_witness. Qed.
+Print Assumptions C10_size_late_report_refuted.
+
 (* Rendezvous kinds (capacity 0: cursor position, clipboard) keep nothing: whenever a caller's list of
    received values grows by v, the handler is at that very step blocked offering v or performing the
    send of v.  A reply whose offer has ended (late, unsolicited, duplicated) can therefore never be
@@ -356,8 +386,10 @@ Print Assumptions C10_query_handler_rank.
 (* The tie to the differential run: the property predicate that the harness evaluates on the
    implementation's observations (query_violation: a decidable statement on one scenario and its
    observation, independent of the model) holds of the model's own run of EVERY scenario of at most
-   three actions over the alphabet (12720 scenarios: each query kind early / prompt / never, a reply of
-   each kind at rest, the three sorts of key).  Bound in the statement; closed by vm_compute. *)
+   three actions over the alphabet (20440 scenarios: each of the six query kinds — the size request of
+   reportWinsize included: "a resize the terminal answers, early or while the requester waits, is applied
+   with the reported size; it is lost only when the terminal does not answer" — early / prompt / never,
+   a reply of each kind at rest, the three sorts of key).  Bound in the statement; closed by vm_compute. *)
 Theorem C10_query_model_satisfies_property :
   forallb (fun sc => negb (query_violation (sc, exec_scn gen_qcfg sc))) (scenarios 3 0) = true.
 Proof. exact model_satisfies_property_3. Qed.
@@ -514,6 +546,15 @@ Example C10_shutdown_example :
             /\ fst (exec 4 true [AType [7]; APost 0; AClose] (None, init ex_script))
                = [(true, None); (true, None); (true, None)].
 Proof. eexists. split; [vm_compute; reflexivity|]. vm_compute. repeat split; auto. Qed.
+
+(* the hypotheses of C10_timed_query_no_loss are satisfiable on the translated configuration for the size
+   request, on the very run the property is about: the report is handled before the requester's receive *)
+Example C10_size_early_example :
+  let tr := [LCall 0 KSize; LQ 0; LArrive (SReply KSize 5); LH; LH; LQ 0]%nat in
+  k_snd (q_k gen_qcfg KSize) = SNonblock /\ k_rcv (q_k gen_qcfg KSize) = RTimed /\ cap gen_qcfg KSize = 1%nat /\
+  qrun_all gen_qcfg (timed_hyp gen_qcfg KSize) tr (qinit 1) = true /\
+  exists s, qrun gen_qcfg tr (qinit 1) = Some s /\ qget s 0 = QPost KSize [] (Some 5) /\ rets s KSize = [5] /\ buf s KSize = [].
+Proof. exact size_early_example. Qed.
 
 (* a reachable suspended state: the hypothesis of the refutation is satisfiable, and the
    runner reports the hang *)
